@@ -27,6 +27,12 @@ type token struct {
 	Via  string `json:"via"`
 }
 
+type witProgExpect struct {
+	Is   bool `json:"is"`
+	Ver  int  `json:"ver"`
+	Plen int  `json:"plen"`
+}
+
 type extractExpect struct {
 	Class   string   `json:"class"`
 	Addrs   []string `json:"addrs"`
@@ -113,7 +119,7 @@ func specKind(a address.Address) string {
 // checkScript runs the recognisers on script bytes and compares with the
 // specification's answers.  orig, when not nil, is the address the script was
 // made from.
-func (b *builder) checkScript(c *vrun.Ctx, rc rawCase, shape string, script []byte, class string, ex extractExpect, pkscript bool,
+func (b *builder) checkScript(c *vrun.Ctx, rc rawCase, shape string, script []byte, wp witProgExpect, class string, ex extractExpect, pkscript bool,
 	net string, orig address.Address, back string) {
 
 	p := b.t.w.params[net]
@@ -122,6 +128,16 @@ func (b *builder) checkScript(c *vrun.Ctx, rc rawCase, shape string, script []by
 		rp["script"] = hex.EncodeToString(script)
 		rp["net"] = net
 		c.Violation("script:"+shape+":"+key, fmt.Sprintf("script %x: %s", script, what), rp)
+	}
+	// witness program recogniser
+	c.AddEval(2)
+	if got := txscript.IsWitnessProgram(script); got != wp.Is {
+		bad("is-witness-program", fmt.Sprintf("IsWitnessProgram says %t, specification %t", got, wp.Is))
+	}
+	ver, prog, werr := txscript.ExtractWitnessProgramInfo(script)
+	if (werr == nil) != wp.Is || (wp.Is && (ver != wp.Ver || len(prog) != wp.Plen || !bytes.HasSuffix(script, prog))) {
+		bad("witness-program-info", fmt.Sprintf("ExtractWitnessProgramInfo gives version %d, program %x (%v); specification: witness program %t, version %d, %d bytes",
+			ver, prog, werr, wp.Is, wp.Ver, wp.Plen))
 	}
 	c.AddEval(4)
 	if got := txscript.GetScriptClass(script).String(); got != class {
@@ -153,7 +169,9 @@ func (b *builder) checkScript(c *vrun.Ctx, rc rawCase, shape string, script []by
 		if err != nil || !bytes.Equal(again, want) {
 			bad("script-address-script", fmt.Sprintf("extracted address %s pays to %x (%v)", a.EncodeAddress(), again, err))
 		}
-		if !a.IsForNet(p) {
+		if row := b.t.w.byName[net]; !a.IsForNet(p) && row.RegHrp != row.Hrp && strings.HasPrefix(a.EncodeAddress(), row.Hrp+"1") {
+			c.Violation(keyHrpUpper, fmt.Sprintf("script %x: the address %s extracted for network %s (registered with prefix %q) is not for that network", script, a.EncodeAddress(), net, row.RegHrp), rc.replay())
+		} else if !a.IsForNet(p) {
 			bad("extract-net", fmt.Sprintf("extracted address %s is not for the network it was extracted for (%s)", a.EncodeAddress(), net))
 		}
 		if orig != nil {
@@ -202,6 +220,8 @@ func (b *builder) runAddr(c *vrun.Ctx, rc rawCase) error {
 		Decision    decision      `json:"decision"`
 		EncodedKind string        `json:"encodedkind"`
 		ForNets     []string      `json:"fornets"`
+		ImplForNets []string      `json:"implfornets"`
+		WitProg     witProgExpect `json:"witprog"`
 		Script      []token       `json:"script"`
 		Class       string        `json:"class"`
 		Extract     extractExpect `json:"extract"`
@@ -248,7 +268,12 @@ func (b *builder) runAddr(c *vrun.Ctx, rc rawCase) error {
 			}
 		}
 		if !sameSet(nets, ex.ForNets) {
-			bad("isfornet", fmt.Sprintf("IsForNet holds for %v, specification %v", nets, ex.ForNets))
+			if sameSet(nets, ex.ImplForNets) && b.t.w.byName[cs.Net].RegHrp != b.t.w.byName[cs.Net].Hrp {
+				c.Violation(keyHrpUpper, fmt.Sprintf("%s address %s made for network %s (registered with prefix %q): IsForNet holds for %v, not for its own network",
+					cs.AKind, s, cs.Net, b.t.w.byName[cs.Net].RegHrp, nets), rc.replay())
+			} else {
+				bad("isfornet", fmt.Sprintf("IsForNet holds for %v, specification %v", nets, ex.ForNets))
+			}
 		}
 		if o.d.Accept {
 			// same address again
@@ -287,7 +312,7 @@ func (b *builder) runAddr(c *vrun.Ctx, rc rawCase) error {
 			bad("paytoaddr-script", fmt.Sprintf("PayToAddrScript gives %x (%v), the specification's template gives %x", got, err, want))
 			continue
 		}
-		b.checkScript(c, rc, "template-"+cs.AKind, got, ex.Class, ex.Extract, ex.PkScript, cs.Net, ad, ex.Back)
+		b.checkScript(c, rc, "template-"+cs.AKind, got, ex.WitProg, ex.Class, ex.Extract, ex.PkScript, cs.Net, ad, ex.Back)
 		if tr, ok := ad.(*address.AddressTaproot); ok {
 			// the key-based constructor agrees
 			if pk, err := schnorr.ParsePubKey(tr.ScriptAddress()); err == nil {
@@ -312,6 +337,7 @@ func (b *builder) runScript(c *vrun.Ctx, rc rawCase) error {
 		Sc []token `json:"sc"`
 	}
 	var ex struct {
+		WitProg  witProgExpect `json:"witprog"`
 		Class    string        `json:"class"`
 		Extract  extractExpect `json:"extract"`
 		PkScript bool          `json:"pkscript"`
@@ -322,12 +348,12 @@ func (b *builder) runScript(c *vrun.Ctx, rc rawCase) error {
 	for rep := 0; rep < 4; rep++ {
 		net := b.t.w.names[b.rng.Intn(len(b.t.w.names))]
 		script := serialise(b.rng, cs.Sc, nil)
-		b.checkScript(c, rc, cs.Of+"-"+cs.M, script, ex.Class, ex.Extract, ex.PkScript, net, nil, "")
+		b.checkScript(c, rc, cs.Of+"-"+cs.M, script, ex.WitProg, ex.Class, ex.Extract, ex.PkScript, net, nil, "")
 	}
 	c.AddTraces(1)
 	key := fmt.Sprintf("script/%s/%s", cs.Of, cs.M)
 	if cs.Of == "witprog" && len(cs.Sc) == 2 {
-		key = fmt.Sprintf("script/witprog/op%d/len%d/%s", cs.Sc[0].V, cs.Sc[1].N, cs.Sc[1].Data)
+		key = fmt.Sprintf("script/witprog/op%d/len%d/%s/%s", cs.Sc[0].V, cs.Sc[1].N, cs.Sc[1].Data, cs.Sc[1].Via)
 	}
 	c.Distinct(key)
 	return nil
